@@ -25,9 +25,9 @@ CLAIMED = {
         note="termination is observed as 'returned within the watchdog' (twice); removing/renaming the root of a Sub view is not generated; RemoveAll above a mount point is excluded while known finding C03:removeall-above-mountpoint reproduces",
     ),
     "C05": dict(
-        technique="state-machine property testing with rapid; differential oracle on error values (type, path fields, sentinel set) = raw os package on a twin tmpfs tree; 11 layer stacks as subjects",
+        technique="state-machine property testing with rapid; differential oracle on error values (type, path fields, sentinel set) = raw os package on a twin tmpfs tree; 12 layer stacks as subjects plus the read-only layers cache and tar",
         text=("Every failing FS-level call of generated histories is compared with the os package's error for the same call on a twin tree: concrete type, path fields in the caller's namespace equal to what os names, "
-              "and every sentinel os matches. Subjects: mem, keyvalue/plain store, os.FS under 1-3 Sub roots, mount.FS with 0/1/2 nested mounts, Sub(mem), Sub(Sub(mem)), Sub(mount) at a mount point. Sampled exploration."),
+              "and every sentinel os matches. Subjects: mem, keyvalue/plain store, os.FS under 1-3 Sub roots, mount.FS with 0/1/2 nested mounts, Sub(mem), Sub(Sub(mem)), Sub(mount) at a mount point; cache and tar over a generated source tree (failing reads against os, failing mutations typed and naming the caller's path). Sampled exploration."),
         note="Op strings are not compared; for RemoveAll the name passed in is accepted besides the ancestor os names; ErrNotImplemented (unsupported op, e.g. Rename through a generic Sub view) only needs type+path; mount-boundary operations are left to C06",
     ),
     "C04": dict(
@@ -44,11 +44,11 @@ CLAIMED = {
         note="dir above a mount point is excluded while known finding C07:sub-above-mountpoint reproduces; symlinks not generated; error paths of MkdirAll/RemoveAll and of handle-level fallbacks are compared by class only",
     ),
     "C06": dict(
-        technique="twin-world state-machine property testing with rapid against an independent reference router; model-based AddMount sequences; harness-gated concurrent AddMount (plus -race leg)",
+        technique="twin-world state-machine property testing with rapid against an independent reference router; model-based AddMount sequences; harness-gated concurrent AddMount (plus -race leg); fault enumeration on cross-mount rename",
         text=("Generated mount configurations (0-4 points incl. nested and string-prefix look-alikes) and histories: every op is routed by a harness-side longest-whole-element-prefix router and executed through mount.FS in one world and "
               "directly on the selected file system in the other; results and the snapshots of all constituent file systems must match, Mount() is re-evaluated under sampled table iteration orders, cross-mount renames are judged by a "
-              "before/after predicate, AddMount sequences by a model, and concurrent AddMount of one point by a gate that forces the check-then-store window. Sampled exploration; the window forcing is deterministic for the gated call only."),
-        note="iteration orders of the mount table are sampled; a cross-mount rename whose copy fails midway (destination already truncated) is not reachable without a failing destination FS and is not injected here",
+              "before/after predicate, AddMount sequences by a model, concurrent AddMount of one point by a gate that forces the check-then-store window, and a cross-mount rename is repeated with a fault injected at every call index of the destination and source mounts (either it happened or both trees are as before). Sampled exploration; the window forcing is deterministic for the gated call only."),
+        note="iteration orders of the mount table are sampled; losing an existing destination file when the cross-mount copy fails is known finding C06:cross-rename-fault-loses-existing-destination",
     ),
     "C08": dict(
         technique="property-based testing with rapid (generated states/arguments) + exhaustive enumeration inside each case of all capability subsets (generated mask types) and of every primitive-call fault index; differential oracle = the full-capability FS",
@@ -60,12 +60,12 @@ CLAIMED = {
     "C16": dict(
         technique="property-based testing with rapid over generated directories and page-size sequences; oracle = the generated child set (model) + Stat of each child",
         text=("Generated directories (0-40 children, 200-300 on os.FS, mixed kinds, grandchildren and prefix-named siblings as decoys) on 7 subjects; ReadDir by name is checked for completeness, uniqueness, order and agreement with Stat; "
-              "paged reads on one handle with generated page-size sequences are checked for permutation, no (empty,nil), EOF exactly at the end and n<=0 semantics. Sampled exploration."),
+              "paged reads on one handle with generated page-size sequences (1, 2, N-1, N, N+1, 10^6, MaxInt32, MaxInt, and 0/-1/MinInt), optionally after activity between Open and the first page (Stat on the handle, a child added or removed), are checked for permutation, no (empty,nil), EOF exactly at the end and n<=0 semantics. Sampled exploration."),
         note="directories are not mutated between pages; after a mid-way n<=0 call only error-free completion is asserted (the statement pins nothing more)",
     ),
     "C17": dict(
         technique="property-based testing with rapid; differential oracle for ErrClosed = closed *os.File twin; invariant oracles for sibling independence and for 'old name stays gone'",
-        text=("On 7 subjects: every method in every order after Close (non-nil error, no panic, ErrClosed where os.File says so); generated action sequences on one handle while a sibling's offset and validity are compared with an os twin; "
+        text=("On 7 subjects: every method, and its boundary-argument variants (empty buffers, Seek(0,current), ReadDir(-1), same-size Truncate), in every order after Close (an error wherever os.File gives one, no panic, ErrClosed where os.File says so); generated action sequences on one handle while a sibling's offset and validity are compared with an os twin; "
               "remove/rename/RemoveAll followed by mutations through a previously opened handle with Stat(old)/listing checked after each. Sampled exploration."),
         note="methods a handle never had (e.g. Write on a read-only keyvalue handle) are exempt from the ErrClosed requirement (the helper answers ErrNotImplemented); sibling contents are not compared over a plain Store (snapshot copies by design)",
     ),
@@ -73,18 +73,18 @@ CLAIMED = {
         technique="model-based (state-machine) property testing with rapid against a []byte model with alias groups; the same machine under GOOS=js/wasm (node) for the typed-array blob; rapid.MakeFuzz native fuzzing in the thorough tier",
         text=("Generated sequences of View/Slice/Set/Grow/Truncate/Len/Bytes (direct and through the blob.* helpers) over a pool of aliasing blobs, with arguments across and beyond the valid range; after every step every live blob is compared "
               "with a Go-slice model in which views alias and slices/Bytes are copies; out-of-range calls must not panic or modify anything; every call runs under a watchdog (self-aliasing Set). Runs natively (blob.Bytes) and in node (blob.Bytes, idbblob.Blob). Sampled exploration."),
-        note="aliasing across any Grow/Truncate call is not asserted; Set whose source overflows the destination is not generated (implementations legitimately differ); out-of-range errors are required only from the byte-slice implementation",
+        note="after a Grow/Truncate the alias partners' bytes are no longer asserted, their lengths are (a view is its own sequence); Set whose source overflows the destination is not generated (implementations legitimately differ); out-of-range errors are required only from the byte-slice implementation",
     ),
     "C18": dict(
         technique="model-based property testing with rapid against a map model (both transaction implementations); harness-owned interleaving of concurrent transactions by parking them inside handlers; crash tracing for unrecoverable runtime errors",
-        text=("Generated call sequences (Get/GetHandler/Set/SetHandler with succeeding, failing and aborting handlers, Commit/Abort) on the real in-memory transactions (via the verif hook) and on the serial fallback are checked against a map model: "
+        text=("Generated call sequences (Get/GetHandler/Set/SetHandler with succeeding, failing and aborting handlers, Commit, Commit under an already cancelled context, Abort) on the real in-memory transactions (via the verif hook) and on the serial fallback are checked against a map model: "
               "one result per call in order with matching unique ids, read-your-writes across transactions, handler errors, no effect after abort, store released and equal to the model afterwards. An isolation leg parks 2-6 concurrent transactions "
               "inside handlers and checks that never two are inside and nothing is torn. Sampled exploration; the isolation schedule is owned only at handler granularity."),
         note="a test-binary death (fatal error such as a double unlock) is reported as a violation with the traced history; Commit's return value for an aborted transaction is not asserted",
     ),
     "C14": dict(
         technique="property-based testing with rapid (generated histories) + exhaustive enumeration of the failing store-call index inside each case; oracle = error must surface / result equals fault-free result, no panic, FS view equals the store's real contents",
-        text=("For every generated history (namespace and handle steps) every store call of the fault-free run is failed in turn, on a lazy plain Store (serial fallback) and on the real in-memory store behind a rejecting TransactionStore; "
+        text=("For every generated history (namespace and handle steps) every store call of the fault-free run is failed in turn, on a lazy plain Store (serial fallback), on the real in-memory store behind a rejecting TransactionStore, and on a lock-taking TransactionStore over the lazy store (a transaction abandoned on an error path makes the next operation hang); "
               "a rejected Set must always surface as an error, a failed Get/Data/list must surface unless the result is identical to the fault-free one, nothing may panic or hang during or after, and at the end a fresh look-up must show exactly what the store holds. "
               "Fault indices are exhaustive per history (<=200); histories are sampled."),
         note="one fault per run; the wrapper for the TransactionStore rejects operations inside the transaction (the mem store itself cannot fail); examples/s3 is not buildable offline, its Store shape is reproduced by the harness's plain store",
@@ -115,11 +115,11 @@ CLAIMED = {
         note="liveness is observed as 'returned within the watchdog'; interleavings inside a destination call or between points the harness does not own are only sampled by the stress legs",
     ),
     "C15": dict(
-        technique="property-based testing with rapid over small concurrent programs; harness-owned cooperative scheduler over the real in-memory store (yield points at every store transaction and blob operation); serializability oracle = set of outcomes of all sequential orders; exhaustive DFS over schedules with <=2 pre-emptions; free-running legs incl. the race detector",
+        technique="property-based testing with rapid over small concurrent programs; harness-owned cooperative scheduler over the real in-memory store (yield points at every store transaction and blob operation); serializability oracle = set of outcomes of all sequential orders; exhaustive DFS over schedules with <=2 pre-emptions; a completely enumerated family of single-mutator/observer programs; free-running legs incl. the race detector",
         text=("Generated programs (2-3 goroutines x 1-3 operations incl. per-goroutine handle I/O) run under a scheduler the harness owns; every explored interleaving's results + final tree must equal some sequential order's. "
-              "Per program either 12 drawn schedules or every schedule with <=2 pre-emptions; an independence leg confines goroutines to disjoint subtrees; free-running legs (hot-file programs, 5 iterations x 20 repetitions, and -race in thorough) look for panics, deadlocks and data races. "
+              "Per program either 12 drawn schedules or every schedule with <=2 pre-emptions; an independence leg confines goroutines to disjoint subtrees; observer legs run ONE mutating operation against read-only threads (stat/readdir/cat) under every <=2-pre-emption schedule (random, and a complete canonical family in the quick tier), so an operation that stops being one step is seen even where two mutators are excluded; free-running legs (hot-file programs, 5 iterations x 20 repetitions, and -race in thorough) look for panics, deadlocks and data races. "
               "Bounded: programs are sampled; schedules are exhaustive only up to 2 pre-emptions at transaction/blob-operation granularity."),
-        note="operations of different goroutines on the same path or on a path and its ancestor are excluded from the serializability legs while known findings C15:ns:same / C15:ns:parent-child reproduce (operations are multi-transaction: needs a redesign); they remain in the free-running/race legs; a data race report is a violation whose schedule cannot be replayed",
+        note="operations of different goroutines on the same path or on a path and its ancestor are excluded from the serializability legs while known findings C15:ns:same / C15:ns:parent-child reproduce (operations are multi-transaction: needs a redesign); they remain in the free-running/race legs; in the observer legs only the exactly identified classes C15:obs:* (MkdirAll of >=2 levels, Rename of a directory, a listing racing a rename inside it) are excluded; a data race report is a violation whose schedule cannot be replayed",
     ),
     "C09": dict(
         technique="property-based testing with rapid over roots, volumes, conventions, names and constructed OS-path candidates; oracles computed by splitting/cleaning in the harness (round-trip and inverse relations); native coverage-guided fuzzing in the thorough tier",
@@ -128,9 +128,9 @@ CLAIMED = {
         note="names or Sub directories containing a backslash or colon under the Windows convention have no exact OS spelling: ErrInvalid or 'inside the root' is accepted; OS error paths under Sub roots are checked by C05",
     ),
     "C20": dict(
-        technique="mutation of the system under test: generated/enumerated deviant file systems (operation x deviation kind x trigger) run against the real conformance suite in re-executed test binaries; a recording wrapper decides mechanically whether the suite observed the deviation (trace differential vs the reference)",
+        technique="mutation of the system under test: generated/enumerated deviant file systems (operation x deviation kind x trigger) run against the real conformance suite in re-executed test binaries; a recording wrapper decides mechanically whether the suite observed the deviation (trace differential vs the reference); ratchet against the deviants rejected at the pinned commit",
         text=("Every deviant of a finite grammar is run against fstest.FS + fstest.File; the calls the suite makes and the results it is handed are recorded per scenario on the deviant and on the reference; a deviant whose recorded behaviour differs must make the suite fail. "
               "The reference (mem.FS, os.FS) must pass repeatedly at parallelism {1,16}x{1,16} with identical recorded behaviour. Both tiers enumerate the whole grammar (414 deviants), exhaustive for that grammar."),
-        note="survivors with a listed signature (operation:kind) are known findings (mode mask of zero, subset tree assertions, unread counts); any other surviving deviant is a violation; exposure that depends on goroutine scheduling (concurrent scenarios, call-count triggers in shared-FS scenarios) is not counted",
+        note="triggers include argument classes (e.g. Truncate only when shrinking); a deviant rejected at the pinned commit (harness/c20/expected_killed.txt) that no scenario observes any more is a violation C20:unexercised (stricter than the literal statement: 'exercised' is pinned to the pinned commit); survivors with a listed signature (operation:kind) are known findings (mode mask of zero, subset tree assertions, unread counts); any other surviving deviant is a violation; exposure that depends on goroutine scheduling (concurrent scenarios, call-count triggers in shared-FS scenarios) is not counted",
     ),
 }
